@@ -284,6 +284,18 @@ func (w *world) acctList(d *dump, set []common.Address) string {
 	return hx.CoqList(items)
 }
 
+// acctListDiff lists only the accounts of set whose record in d differs from the one in base.
+func (w *world) acctListDiff(d, base *dump, set []common.Address, always map[common.Address]bool) string {
+	var items []string
+	for _, a := range set {
+		if !always[a] && d.bal(a).Cmp(base.bal(a)) == 0 && d.Acct[a] == base.Acct[a] {
+			continue
+		}
+		items = append(items, fmt.Sprintf("(mkA %d %s %d %s)", w.id(a), d.bal(a).String(), d.nonce(a), hx.CoqBool(d.hasCode(a))))
+	}
+	return hx.CoqList(items)
+}
+
 func (w *world) emitTx(sc *Scenario, ti *txInfo, ob *observation, obs string, postRun *dump) {
 	set := map[common.Address]bool{ti.from: true, feeReceiver: true}
 	if ti.to != nil {
@@ -330,20 +342,51 @@ func (w *world) emitTx(sc *Scenario, ti *txInfo, ob *observation, obs string, po
 				re = fmt.Sprintf("(Some %d)", runErrCode(ob.tr.err))
 			}
 			var su []string
+			always := map[common.Address]bool{}
 			for _, a := range ob.tr.suicided {
 				su = append(su, fmt.Sprint(w.id(a)))
+				always[a] = true
 			}
 			oracle = fmt.Sprintf("(Ran %s %d %s %d %d %s %s %s)", hx.CoqBool(ob.tr.create), ob.tr.gasIn, ob.spy.preRun.bal(ti.from).String(),
-				ob.tr.gasLeft, ob.tr.refund, re, w.acctList(postRun, accts), hx.CoqList(su))
+				ob.tr.gasLeft, ob.tr.refund, re, w.acctListDiff(postRun, ob.spy.preRun, accts, always), hx.CoqList(su))
 		case ec >= 100:
 			w.c.Count("case:skipped-unobserved-run")
 			return
 		}
 	}
 	term := fmt.Sprintf("(CTx %d %d %d %s %s %s %s %s)", ti.chain, ti.height, w.id(feeReceiver), w.acctList(ob.pre, accts), msg, oracle, obs,
-		w.acctList(ob.post, accts))
+		w.acctListDiff(ob.post, ob.pre, accts, nil))
 	w.c.Case(term, sc)
 	w.c.Sample(map[string]interface{}{"scenario": sc, "observed": obs})
+
+	// effect-tree correspondence (Model/EvmFrames.v): the tree recorded by the tracer, run by the
+	// model from the state after buyGas, must give the state observed when the interpreter returned
+	if ob.err == nil && ob.tr.ended && ob.tr.top != nil && effSize(ob.tr.top) <= 400 {
+		tset := map[common.Address]bool{}
+		for _, a := range accts {
+			tset[a] = true
+		}
+		effAddrs(ob.tr.top, tset)
+		var all []common.Address
+		for a := range tset {
+			all = append(all, a)
+		}
+		sort.Slice(all, func(i, j int) bool { return w.id(all[i]) < w.id(all[j]) })
+		var su []string
+		always := map[common.Address]bool{}
+		for _, a := range ob.tr.suicided {
+			su = append(su, fmt.Sprint(w.id(a)))
+			always[a] = true
+		}
+		top := ob.tr.top
+		w.c.Case(fmt.Sprintf("(CTree %d %s %d %s %d %s %s %s %s %s)", ti.height, w.acctList(ob.spy.preRun, all), w.id(ti.from),
+			hx.CoqBool(ob.tr.create), w.id(top.to), top.value.String(), hx.CoqBool(top.ok), w.coqEffects(top.body),
+			w.acctListDiff(postRun, ob.spy.preRun, all, always), hx.CoqList(su)), sc)
+		w.c.Count("case:effect-tree")
+		if effSize(top) > 1 {
+			w.c.Count("case:effect-tree-nested")
+		}
+	}
 
 	// SELFDESTRUCT correspondence: a direct call of one of the three one-instruction library contracts
 	if ob.err == nil && ob.tr.ended && ob.tr.err == nil && ti.to != nil && ob.tr.sdAny {
